@@ -55,6 +55,23 @@ def plan(tier: str, seed: int) -> Plan:
             conds.append(Condition(f"ancestor-first:{style}:{spine}:{'+'.join(exprs)}", "ancestor", H, "ancestor_first",
                                    {"match": mq, "exprs": exprs, "style": style, "spine": spine, "maxn": 2, "leaf": "nbi"}, T, required=False,
                                    bounds="a container selected whole, then a node inside it: the projection equals that of the container alone"))
+        if ":" in exprs[0]:
+            continue  # reversed, the per-array selections would not be ascending (outside the quantifier)
+        for style in (["relative", "root"] if thorough else [["root", "relative"][k % 2]]):
+            rev = exprs[1:] + exprs[:1]
+            conds.append(Condition(f"ancestor-last:{style}:{spine}:{'+'.join(rev)}", "ancestor", H, "ancestor_first",
+                                   {"match": mq, "exprs": rev, "anc": len(rev) - 1, "style": style, "spine": spine, "maxn": 2, "leaf": "nbi"}, T, required=False,
+                                   bounds="nodes inside a container, then the container selected whole: the projection equals that of the container alone"))
+    pool = [("$", ["$.a[0]", "$.b.a"], "nest1"), ("$.a[0]", ["$[0]", "$.a"], "nest1"), ("$.*", ["$.a", "$[0]"], "nest1"), ("$", ["$.b.*"], "nest1"),
+            ("$[*]", ["$.a"], "nest2"), ("$", ["$[1].a", "$[2]"], "nest2"), ("$[2]", ["$.a", "$.b[0]"], "nest2"), ("$", ["$[0][0]", "$[1][1][0]"], "nest3"),
+            ("$[*]", ["$[0]"], "nest3"), ("$..*", ["$.a"], "deep"), ("$", ["$.a.a.b", "$.b[1].a"], "deep"), ("$.b[*]", ["$.a", "$.k"], "deep"),
+            ("$", ["$[0]", "$[1]"], "arr"), ("$[*]", ["$.a", "$[0]", "$.k"], "arr")]
+    for k, (mq, exprs, spine) in enumerate(pool):
+        for style in (styles if thorough else [styles[k % 3]]):
+            conds.append(Condition(f"pool:{style}:{spine}:{mq}:{'+'.join(exprs)}", "project-pool", H, "project_pool",
+                                   {"match": mq, "exprs": exprs, "style": style, "spine": spine, "maxn": 2}, T, required=False,
+                                   bounds="two leaves (three positions) each one of 9 pooled values ({}, [], {k:{}}, [[]], {a:{},b:[]}, strings that are JSON text, 0): "
+                                          "empty containers as selected values, strings as matches"))
     return Plan(
         conditions=conds,
         explanation=(
@@ -64,5 +81,5 @@ def plan(tier: str, seed: int) -> Plan:
             "node sits at its (relative / root) location with array indices replaced by their rank and no other leaves; non-container "
             "matches and empty selections yield nothing; the document is unchanged."),
         assumptions=["selections are disjoint and per-array ascending (the property's quantifier)", "selected nodes are located with the library's own finditer (decided by C01/C03)"],
-        outside=["overlapping selections", "descending per-array selections", "string leaves (three leaves are null|bool|int)"],
+        outside=["overlapping selections", "descending per-array selections", "string leaves other than the pooled ones"],
     )
